@@ -45,11 +45,12 @@ def lcell(pages, prefix='sym', default_suffix=False, klen=3, T=60):
                 timeout=T, cost=nk * 5, example=ex)
 
 
-def rcell(kind, source, width=2, T=60):
-    P = {'kind': kind, 'source': source}
+def rcell(kind, source, width=2, T=60, key_name=None):
+    P = {'kind': kind, 'source': source, 'key_name': key_name}
     sym = [('m0', 'str'), ('r0', 'str'), ('s0', 'str')]
     pre = digits('m0', width) + str_pre(['r0', 's0'])
-    return Cell(pid=PID, cid='C18/reader/%s/%s/id-width%d' % (kind, source, width), harness='h_collect:reader_cell',
+    return Cell(pid=PID, cid='C18/reader/%s/%s/id-width%d%s' % (kind, source, width, '/awkward-key' if key_name else ''),
+                harness='h_collect:reader_cell',
                 params=P, sym=sym, pre=pre, stubs=('hash',), timeout=T, cost=2,
                 example={'m0': '7' + '0' * (width - 1), 'r0': 'R', 's0': 'a'})
 
@@ -72,6 +73,13 @@ def cells(tier):
             out.append(rcell(kind, source, T=T))
     out.append(rcell('roStoryMove', 'string', width=3, T=T))
     out.append(rcell('roCreate', 's3', width=1, T=T))
+    # S3 keys are opaque: characters that mean something in URLs are part of the name
+    out.append(rcell('roStoryMove', 's3', T=T, key_name='prefix/News+Weather/100%25 done/a%2Fb+c.mos.xml'))
+    out.append(rcell('roCreate', 's3', T=T, key_name='prefix/caf\u00e9 \u20ac/#1?.mos.xml'))
+    # equal message IDs: the supplied order decides, for every constructor alike
+    for src in ('string', 'file', 's3'):
+        out.append(cmk(PID, ('roStoryAppend', 'roStoryAppend', 'roStoryMove'), True, src, T=T, mids=['20', '20', '30'],
+                       perm=[0, 2, 1, 3], tag='equal-ids'))
     out.append(Cell(pid=PID, cid='C18/sources/file-bytes-str-s3', harness='h_collect:sources_cell', params={},
                     sym=[('i', 'int')], pre=['0 <= i < %d' % len(SOURCE_DOCS)], stubs=(), timeout=T, cost=3,
                     example={'i': 2}))
